@@ -113,6 +113,10 @@ pub fn check(c: &DetCase, probe: &Probe) -> Verdict {
         Scenario::Drift(_) => "scenario:drift",
         Scenario::Touch(_) => "scenario:touched-blocks",
     });
+    let fake = crate::fakeai::FakeAi::start(|_, req| {
+        if req.user_message().unwrap_or_default().contains("BAD") { crate::fakeai::Reply::Text("objection from the fake endpoint".into()) } else { crate::fakeai::Reply::Text("OK".into()) }
+    });
+    let fake_url = fake.url();
     let mut baseline: Option<(String, String)> = None; // (validate, list)
     let mut variants = 0u64;
     let mut description = String::new();
@@ -173,6 +177,7 @@ pub fn check(c: &DetCase, probe: &Probe) -> Verdict {
                 for (k, v) in env {
                     run = run.env(k, v);
                 }
+                run = run.env("BLOCKWATCH_AI_API_URL", &fake_url).env("BLOCKWATCH_AI_API_KEY", "k").env("BLOCKWATCH_AI_MODEL", "m");
                 run.taskset = taskset.map(String::from);
                 run.cwd = cwd.clone();
                 // explicit scan paths are root-relative globs: valid from any cwd
